@@ -160,7 +160,58 @@ func c28Topo(t c28Topic, v int16) string {
 	return sb.String()
 }
 
-func c28Run(cs c28Case) c28Result {
+// c28Pre carries a reply that was already produced elsewhere (the concurrent stream):
+// c28RunOn then only decodes and judges it against cs.
+type c28Pre struct {
+	out []byte
+	err error
+}
+
+func c28Run(cs c28Case) c28Result { return c28RunOn(cs, nil) }
+
+// c28ReqPayload encodes the request of cs (header+body, no size prefix).
+func c28ReqPayload(cs c28Case) []byte {
+	if cs.Kind == "coord" {
+		req := kmsg.NewPtrFindCoordinatorRequest()
+		req.Version = cs.Version
+		req.CoordinatorKey = "g"
+		return c28Payload(req, 7)
+	}
+	req := kmsg.NewPtrMetadataRequest()
+	req.Version = cs.Version
+	if !cs.All {
+		req.Topics = []kmsg.MetadataRequestTopic{}
+		for _, t := range cs.Topics {
+			rt := kmsg.NewMetadataRequestTopic()
+			rt.Topic = t.Name
+			rt.TopicID = t.ID
+			req.Topics = append(req.Topics, rt)
+		}
+	}
+	return c28Payload(req, 11)
+}
+
+// c28Exec sends the request of cs through the real handlers of p.
+func c28Exec(p *proxy, cs c28Case) ([]byte, error) {
+	payload := c28ReqPayload(cs)
+	header, body, err := protocol.ParseRequestHeader(payload)
+	if err != nil {
+		return nil, err
+	}
+	if !cs.Ready {
+		out, ok, err := p.buildNotReadyResponse(header, body)
+		if err == nil && !ok {
+			err = fmt.Errorf("no not-ready reply")
+		}
+		return out, err
+	}
+	if cs.Kind == "coord" {
+		return p.handleFindCoordinator(header)
+	}
+	return p.handleMetadata(context.Background(), header, payload)
+}
+
+func c28RunOn(cs c28Case, pre *c28Pre) c28Result {
 	var res c28Result
 	setFail := func(oracle, key, what string) {
 		if res.fail == "" {
@@ -176,24 +227,12 @@ func c28Run(cs c28Case) c28Result {
 	res.store = c28Cluster{Controller: all.ControllerID, ClusterID: all.ClusterID, Brokers: c28FromBrokers(all.Brokers), Topics: c28FromTopics(all.Topics)}
 
 	if cs.Kind == "coord" {
-		req := kmsg.NewPtrFindCoordinatorRequest()
-		req.Version = cs.Version
-		req.CoordinatorKey = "g"
-		payload := c28Payload(req, 7)
-		header, body, err := protocol.ParseRequestHeader(payload)
-		if err != nil {
-			setFail("harness", "harness", "header: "+err.Error())
-			return res
-		}
 		var out []byte
-		if cs.Ready {
-			out, err = p.handleFindCoordinator(header)
+		var err error
+		if pre != nil {
+			out, err = pre.out, pre.err
 		} else {
-			var ok bool
-			out, ok, err = p.buildNotReadyResponse(header, body)
-			if err == nil && !ok {
-				err = fmt.Errorf("no not-ready reply")
-			}
+			out, err = c28Exec(p, cs)
 		}
 		if err != nil {
 			setFail("harness", "harness", "coordinator: "+err.Error())
@@ -219,23 +258,7 @@ func c28Run(cs c28Case) c28Result {
 	}
 
 	// ---- metadata ----
-	req := kmsg.NewPtrMetadataRequest()
-	req.Version = cs.Version
-	if !cs.All {
-		req.Topics = []kmsg.MetadataRequestTopic{}
-		for _, t := range cs.Topics {
-			rt := kmsg.NewMetadataRequestTopic()
-			rt.Topic = t.Name
-			rt.TopicID = t.ID
-			req.Topics = append(req.Topics, rt)
-		}
-	}
-	payload := c28Payload(req, 11)
-	header, body, err := protocol.ParseRequestHeader(payload)
-	if err != nil {
-		setFail("harness", "harness", "header: "+err.Error())
-		return res
-	}
+	payload := c28ReqPayload(cs)
 	// the request as the proxy's parser sees it
 	_, parsed, err := protocol.ParseRequest(payload)
 	if err != nil {
@@ -253,14 +276,10 @@ func c28Run(cs c28Case) c28Result {
 		res.req = append(res.req, rt)
 	}
 	var out []byte
-	if cs.Ready {
-		out, err = p.handleMetadata(ctx, header, payload)
+	if pre != nil {
+		out, err = pre.out, pre.err
 	} else {
-		var ok bool
-		out, ok, err = p.buildNotReadyResponse(header, body)
-		if err == nil && !ok {
-			err = fmt.Errorf("no not-ready reply")
-		}
+		out, err = c28Exec(p, cs)
 	}
 	if err != nil {
 		setFail("harness", "harness", "metadata: "+err.Error())
